@@ -41,7 +41,8 @@ type Case struct {
 const rule = "rapid: history of <= 20 task/template API requests (create, update of script/dbrps/vars/id/template/status, enable, disable, delete; " +
 	"template create/update/rename/delete with 0-3 tasks created from it; valid and rejected requests) interleaved with clean restarts and with " +
 	"run-time faults (points written to /kapacitor/v1/write that end the running execution of a task with a node error, also after the stored definition was patched); " +
-	"non-trivial = an accepted rename or an accepted template update of an enabled task, or a run-time failure of an execution whose task was patched since its start, is followed by a restart; distinct by case hash"
+	"rarely (3 %) with a bulk of 95-125 (or up to 201) further plain tasks, some disabled, so that the catalogue does not fit into one page of 100 tasks; " +
+	"non-trivial = an accepted rename or an accepted template update of an enabled task, or a run-time failure of an execution whose task was patched since its start, is followed by a restart, or a restart with more than 100 tasks; distinct by case hash"
 
 // ---------------------------------------------------------------- API <-> plain data
 
@@ -268,16 +269,40 @@ func send(v *srv, op Op) (accepted bool, status int, errText string, body *clien
 // covers the ids named by the request after a request and every id after a restart.
 func observe(v *srv, getIDs []string) (*observed, error) {
 	o := &observed{tasks: map[string]oTask{}, tmpls: map[string]string{}}
-	lt, err := v.cli.ListTasks(&client.ListTasksOptions{TaskOptions: client.TaskOptions{ScriptFormat: "raw"},
-		Fields: []string{"type", "dbrps", "script", "status", "executing", "error", "vars", "template-id"}})
+	lt, err := listTasksPaged(v, listLimit, []string{"type", "dbrps", "script", "status", "executing", "error", "vars", "template-id"})
 	if err != nil {
-		return nil, fmt.Errorf("list tasks: %v", err)
+		return nil, err
 	}
 	for _, t := range lt {
 		if _, dup := o.tasks[t.ID]; dup {
 			return nil, fmt.Errorf("list shows task %q twice", t.ID)
 		}
 		o.tasks[t.ID] = fromClientTask(t)
+	}
+	if getIDs == nil {
+		// full observation: the same catalogue must come back with other page sizes - in one
+		// page, and in about three pages
+		for _, limit := range []int{len(lt) + 1, len(lt)/3 + 1} {
+			other, err := listTasksPaged(v, limit, []string{"status"})
+			if err != nil {
+				return nil, err
+			}
+			seen := map[string]bool{}
+			for _, t := range other {
+				if seen[t.ID] {
+					return nil, fmt.Errorf("list with limit=%d shows task %q twice", limit, t.ID)
+				}
+				seen[t.ID] = true
+				if _, ok := o.tasks[t.ID]; !ok {
+					return nil, fmt.Errorf("lists disagree: task %q is shown when the tasks are listed with limit=%d but not with limit=%d", t.ID, limit, listLimit)
+				}
+			}
+			for _, t := range lt {
+				if !seen[t.ID] {
+					return nil, fmt.Errorf("lists disagree: task %q is shown when the tasks are listed with limit=%d but not with limit=%d (%d of %d tasks)", t.ID, listLimit, limit, len(other), len(lt))
+				}
+			}
+		}
 	}
 	ids := map[string]bool{}
 	if getIDs == nil {
@@ -360,6 +385,32 @@ func observe(v *srv, getIDs []string) (*observed, error) {
 		}
 	}
 	return o, nil
+}
+
+// listLimit is the page size of the harness' own listings: the default of the API.
+const listLimit = 100
+
+// listTasksPaged lists all tasks page by page (client/API.md "List Tasks": offset = "Offset
+// count for paginating through tasks", limit = "Maximum number of tasks to return", default
+// 100): pages are requested until one comes back with fewer than limit tasks.
+func listTasksPaged(v *srv, limit int, fields []string) ([]client.Task, error) {
+	var all []client.Task
+	for offset := 0; ; offset += limit {
+		page, err := v.cli.ListTasks(&client.ListTasksOptions{TaskOptions: client.TaskOptions{ScriptFormat: "raw"}, Fields: fields, Offset: offset, Limit: limit})
+		if err != nil {
+			return nil, fmt.Errorf("list tasks (offset=%d limit=%d): %v", offset, limit, err)
+		}
+		if len(page) > limit {
+			return nil, fmt.Errorf("list tasks (offset=%d limit=%d) returned %d tasks, more than the limit", offset, limit, len(page))
+		}
+		all = append(all, page...)
+		if len(page) < limit {
+			return all, nil
+		}
+		if offset > 100*listLimit {
+			return nil, fmt.Errorf("list tasks: still full pages at offset %d", offset)
+		}
+	}
 }
 
 // hangBound is the only time-out of the check: how long a batch task that has nowhere to
@@ -573,6 +624,26 @@ func (r *runner) step(i int, op Op) bool {
 			r.fail("restart/"+d.kind, "after a clean restart: %s", d)
 			return false
 		}
+		if n := len(r.m.tasks); n > listLimit {
+			// (the order of the ids is only used for this label)
+			ids := sortedKeys(r.m.tasks)
+			disabledInFirstPage, enabledBehind := false, false
+			for k, id := range ids {
+				if k < listLimit && !r.m.tasks[id].Enabled {
+					disabledInFirstPage = true
+				}
+				if k >= listLimit && r.m.tasks[id].Enabled {
+					enabledBehind = true
+				}
+			}
+			if !r.quiet {
+				r.label("restart with more than 100 tasks")
+				if disabledInFirstPage && enabledBehind {
+					r.label("restart with more than 100 tasks: a disabled task among the first 100 ids, enabled tasks behind them")
+				}
+			}
+			cc.NonTrivial()
+		}
 		if r.armed {
 			cc.NonTrivial()
 		}
@@ -581,6 +652,9 @@ func (r *runner) step(i int, op Op) bool {
 
 	if op.K == "feed" {
 		return r.feed(i, op)
+	}
+	if op.K == "bulk" {
+		return r.bulk(i, op)
 	}
 
 	pre := r.m
@@ -686,6 +760,69 @@ func (r *runner) step(i int, op Op) bool {
 		if t.Tmpl != "" && !t.Assoc {
 			r.label("state: orphaned task")
 		}
+	}
+	return true
+}
+
+// bulk creates many plain tasks, one request each; the model follows every response, the
+// catalogue is observed once at the end (task list in pages, templates, associations,
+// executing set; the GET sweep of all tasks follows with the next restart).
+func (r *runner) bulk(i int, op Op) bool {
+	pre := r.m
+	post := pre
+	accepted, rejected := 0, 0
+	firstRej := ""
+	for _, sub := range op.bulkOps() {
+		next, applicable := post.apply(sub)
+		ok, status, errText, body := send(r.v, sub)
+		if status == 0 {
+			r.steps = append(r.steps, fmt.Sprintf("%d: %s", i, op))
+			r.fail("harness/transport", "request %s (of a bulk) failed without an HTTP status: %s", sub, errText)
+			return false
+		}
+		if !ok {
+			rejected++
+			if firstRej == "" {
+				firstRej = fmt.Sprintf("%s => %d %s", sub, status, errText)
+			}
+			continue
+		}
+		accepted++
+		if !applicable {
+			r.steps = append(r.steps, fmt.Sprintf("%d: %s", i, op))
+			r.fail("accepted-impossible/create", "request %s (of a bulk) was answered %d although the catalogue cannot take it", sub, status)
+			return false
+		}
+		post = next
+		if body != nil {
+			if d := checkBody(post, sub, *body); d != "" {
+				r.steps = append(r.steps, fmt.Sprintf("%d: %s", i, op))
+				r.fail("response-body/create", "request %s (of a bulk) accepted (%d): %s", sub, status, d)
+				return false
+			}
+		}
+	}
+	r.steps = append(r.steps, fmt.Sprintf("%d: %s => %d accepted, %d rejected %s", i, op, accepted, rejected, firstRej))
+	o, err := observeQuiet(r.v, []string{}, pre, post)
+	if err != nil {
+		r.fail(obsSig(err), "after %s: %v", op, err)
+		return false
+	}
+	if !r.quiet {
+		r.label("bulk")
+		if rejected > 0 {
+			r.label("bulk: a create was rejected")
+		}
+	}
+	if d := post.compare(o, !r.apiOnly); d != nil {
+		r.fail("accepted-wrong-outcome/bulk-create/"+d.kind, "after %s, following the responses, the catalogue is not the one the requests ask for: %s", op, d)
+		return false
+	}
+	r.m = post
+	r.accepted = true
+	if d := r.m.checkExecuting(o); d != nil {
+		r.fail(d.kind+"/create", "after %s: %s", op, d)
+		return false
 	}
 	return true
 }
@@ -820,6 +957,8 @@ func obsSig(err error) string {
 		return "hang/run-time-fault"
 	case strings.Contains(s, "twice"):
 		return "api/listed-twice"
+	case strings.HasPrefix(s, "lists disagree"), strings.Contains(s, "more than the limit"), strings.Contains(s, "still full pages"):
+		return "api/list-paging"
 	case strings.Contains(s, "disagree"), strings.Contains(s, "listed but"), strings.Contains(s, "but the list does not"):
 		return "api/list-get-disagree"
 	}
@@ -926,7 +1065,18 @@ func run(c Case, cc *kit.Case) {
 		r.step(len(c.Ops), Op{K: "restart"})
 	}
 	n := len(r.m.tasks)
-	r.label(fmt.Sprintf("final catalogue: %d tasks", min(n, 4)))
+	switch {
+	case n <= 4:
+		r.label(fmt.Sprintf("final catalogue: %d tasks", n))
+	case n < listLimit:
+		r.label("final catalogue: 5-99 tasks")
+	case n == listLimit, n == listLimit+1, n == 2*listLimit, n == 2*listLimit+1:
+		r.label(fmt.Sprintf("final catalogue: %d tasks", n))
+	case n < 2*listLimit:
+		r.label("final catalogue: 102-199 tasks")
+	default:
+		r.label("final catalogue: > 201 tasks")
+	}
 }
 
 var assumptions = []string{
@@ -942,6 +1092,8 @@ var assumptions = []string{
 	"taken from code (combine.go, combination.Do): a combine(lambda: TRUE, lambda: TRUE).max(1) node given 3 or more points of one time answers the next later point with the error 'refusing to perform combination ...' and a node error ends the execution of the task (node.go / task.go; the doc comment of CombineNode.Max says the error is logged); 1 or 2 points are processed. The check uses this only to inject the fault: it waits (bound 60 s, normal some ms) until the task is shown not executing with an error recorded, signature hang/run-time-fault otherwise",
 	"taken from code and client/API.md: which executions a feed reaches is decided by the definition a task was STARTED with ('When patching a task, no changes are made to the running task'): its dbrps at that time and the measurement of its from() node (pipeline/stream.go: from().measurement selects by measurement); a feed is fatal only for executions of the three 'fragile' scripts of the alphabet on the written db.rp, every other execution goes on",
 	"an execution that ended with a run-time error: the task stays enabled, is not executing and shows the error ('error: Any error encountered when executing the task', client/API.md; services/task_store startTask: the waiting goroutine stops the task and saves the error) until it is started again by enable after disable, a rename, an accepted template update, a rolled back template update that reloads it, or a restart of the server (property: after a restart every enabled task is executing again)",
+	"catalogues of more than one page: the harness lists the tasks page by page (client/API.md 'List Tasks': offset = 'Offset count for paginating through tasks', limit = 'Maximum number of tasks to return', default 100; a page with fewer than limit tasks is the last one) with limit 100; in every full observation (after a restart) the listing is repeated with limit = number of tasks + 1 (one page) and with a limit that gives about three pages, and all three must show the same set of ids, none twice; the order of a listing is not assumed",
+	"bulk tasks are plain stream tasks (script <stream0>, dbrps db.rp) created by one POST /tasks each; the model follows each response like for any other create; the catalogue is observed once after the last request of the bulk",
 	"white-box synchronisation of a feed: the write request is answered before TaskMaster has distributed the points (one forking goroutine, first-in first-out), so the harness registers a fork of its own (TaskMaster.NewFork/DelFork, name 'verif-c14-sync', measurement 'c14sync' on the written db.rp), ends the request with one point of that measurement and waits for it before the next request of the history is sent; no task of the alphabet selects that measurement",
 }
 
